@@ -64,7 +64,7 @@ VEC = {
     "isunit": lambda v: b.isunit(v), "conj": lambda v: b.conj(v), "qqmul": lambda p, q: b.qqmul(p, q),
     "inner": lambda p, q: b.inner(p, q), "qvmul": lambda q, v: b.qvmul(q, v),
     "vvmul": lambda p, q: b.vvmul(p, q), "qpow": lambda q: b.qpow(q, 2), "q2r": lambda q: b.q2r(q),
-    "slerp": lambda p, q: b.slerp(p, q, 0.3), "matrix": lambda q: b.matrix(q),
+    "slerp": lambda p, q: b.slerp(p, q, 0.3), "slerp(s=0)": lambda p, q: b.slerp(p, q, 0), "slerp(s=1)": lambda p, q: b.slerp(p, q, 1), "matrix": lambda q: b.matrix(q),
     # second end point in the opposite hemisphere, shorter arc requested
     "slerp(shortest)": lambda p, q: b.slerp(p, -np.asarray(q, dtype=float).ravel(), 0.3, shortest=True),
     "qpow(-3)": lambda q: b.qpow(q, -3),
@@ -217,10 +217,12 @@ def _st(st):
     return conv, ("int" in st)
 
 
-def scalars(name, st):
-    """(separate-scalar call, packed call) for entry `name` with scalars of type st"""
+def scalars(name, st, zeros="none"):
+    """(separate-scalar call, packed call) for entry `name` with scalars of type st; zeros: which of them are zero"""
     conv, whole = _st(st)
     vals = [2, -3, 1] if whole else [1.5, -2.0, 0.25]
+    for k in {"none": (), "second": (1,), "second-third": (1, 2), "first": (0,), "third": (2,), "all": (0, 1, 2)}[zeros]:
+        vals[k] = 0
     x, y, z = [conv(v) for v in vals]
     pk = [float(v) if not whole else int(v) for v in vals]
     if st == "numpy.float32":
@@ -322,8 +324,11 @@ def flat(r):
     def arr(x):
         try:
             return np.asarray(x)
-        except ValueError:
-            return np.asarray(repr(x))
+        except Exception:  # noqa: BLE001
+            try:
+                return np.asarray(repr(x))
+            except Exception:  # noqa: BLE001  (a __repr__ of the library may itself fail: not this check's subject)
+                return np.asarray(type(x).__name__)
     if isinstance(r, (tuple, list)) and not all(np.isscalar(x) for x in r):
         out = []
         for x in r:
